@@ -1472,6 +1472,56 @@ def _counter_obs(tc):
     return out
 
 
+KEY_FORMS = ("scalar", "asc_tuple", "desc_tuple", "perm_tuple", "perm_list", "np_tuple", "np_array")
+
+
+def _api_keys(nsets, seed):
+    """Combinations of sample-set indexes to query: all of them for <= 5 sets, otherwise every
+    singleton and pair plus a random selection; each with a fixed random permutation."""
+    rng = random.Random(seed)
+    combos = []
+    idx = list(range(nsets))
+    for size in range(1, nsets + 1):
+        cs = list(itertools.combinations(idx, size))
+        if nsets > 5 and size > 2:
+            cs = rng.sample(cs, min(len(cs), 6))
+        combos += cs
+    out = []
+    for c in combos:
+        p = list(c)
+        rng.shuffle(p)
+        if len(p) > 1 and p == sorted(p):
+            p = p[1:] + p[:1]              # make sure the permuted form is not ascending
+        out.append((list(c), p))
+    return out
+
+
+def _api_obs(tc, nsets, seed):
+    """Query the TopologyCounter through its public __getitem__ with every key form the API
+    accepts; returns {form: {ascending key string: {rank: count}}} (a copy is queried, indexing a
+    defaultdict-backed counter plants empty entries)."""
+    import copy
+    import numpy as np
+    tc = copy.deepcopy(tc)
+    res = {f: {} for f in KEY_FORMS}
+
+    def cnt(counter):
+        return {"%d,%d" % (int(r[0]), int(r[1])): int(c) for r, c in counter.items() if c != 0}
+    for asc, perm in _api_keys(nsets, seed):
+        name = ",".join(map(str, asc))
+        forms = {"asc_tuple": tuple(asc), "desc_tuple": tuple(reversed(asc)), "perm_tuple": tuple(perm),
+                 "perm_list": list(perm), "np_tuple": tuple(np.int32(x) for x in perm),
+                 "np_array": np.array(perm, dtype=np.int64)}
+        if len(asc) == 1:
+            forms["scalar"] = asc[0]
+        for f, k in forms.items():
+            try:
+                res[f][name] = cnt(tc[k])
+            except Exception as e:
+                res[f][name] = {"exc": exc_class(e)}
+    return res
+
+
 def moves_desc(rng, vanish_p=0.0):
     """A gen_ts-style description: a random topology (polytomies, some unary nodes) on 3..9
     sample leaves over [0,L), changed at 0..3 breakpoints by moving a subtree below another,
@@ -1585,7 +1635,8 @@ class CountTopologies(Family):
     prelude = ("From Coq Require Import List ZArith Bool.\nImport ListNotations.\n"
                "From TskVerif Require Import Base.Common C15.Combination C15.Partitions C15.RankTree C15.CountTopo.\n"
                "Open Scope Z_scope.\n"
-               "Definition tct_is (roots : list ctree) (want : tcounter) : bool := match tree_count_topologies roots with Ok tc => tc_eqb tc want | _ => false end.\n")
+               "Definition tct_is (roots : list ctree) (want : tcounter) : bool := match tree_count_topologies roots with Ok tc => tc_eqb tc want | _ => false end.\n"
+               "Definition tct_key_is (roots : list ctree) (k : list Z) (want : counter) : bool := match tree_count_topologies roots with Ok tc => counter_eqb (tc_getitem tc k) want | _ => false end.\n")
     workers = 8
     timeout = 120.0
     shard = 60
@@ -1679,20 +1730,26 @@ class CountTopologies(Family):
         from harness import gen_ts
         desc, sets = case["desc"], case["sets"]
         ts = gen_ts.build_tables(desc).tree_sequence()
-        per_tree, lefts = [], []
+        per_tree, lefts, api_tree, api_inc = [], [], [], []
+        kseed = len(desc["nodes"]) * 7919 + len(sets)
         for tree in ts.trees():
             lefts.append(tree.interval.left / desc["scale"])
             try:
-                per_tree.append(_counter_obs(tree.count_topologies() if case.get("default")
-                                             else tree.count_topologies(sets)))
+                tc = tree.count_topologies() if case.get("default") else tree.count_topologies(sets)
+                per_tree.append(_counter_obs(tc))
+                api_tree.append(_api_obs(tc, len(sets), kseed))
             except Exception as e:
                 per_tree.append({"exc": exc_class(e) + ": " + str(e)[:80]})
+                api_tree.append(None)
         try:
-            inc = [_counter_obs(tc) for tc in (ts.count_topologies() if case.get("default")
-                                               else ts.count_topologies(sets))]
+            inc = []
+            for tc in (ts.count_topologies() if case.get("default") else ts.count_topologies(sets)):
+                inc.append(_counter_obs(tc))
+                api_inc.append(_api_obs(tc, len(sets), kseed))
         except Exception as e:
             inc = {"exc": exc_class(e) + ": " + str(e)[:80]}
-        return {"lefts": lefts, "per_tree": per_tree, "incremental": inc}
+        return {"lefts": lefts, "per_tree": per_tree, "incremental": inc,
+                "api_tree": api_tree, "api_inc": api_inc}
 
     def oracle(self, case, obs):
         from harness import gen_ts
@@ -1715,6 +1772,23 @@ class CountTopologies(Family):
                 out.append(("count-treeseq-mismatch", "tree %d at %r: got %r want %r" % (k, left, obs["incremental"][k], want)))
             if "exc" not in got and obs["incremental"][k] != got:
                 out.append(("count-incremental-differs", "tree %d at %r" % (k, left)))
+            # the counter is indexed by an UNORDERED combination of sample sets: every key form
+            # the API accepts must give the brute-force multiset of that combination
+            for level, apis in (("tree", obs["api_tree"]), ("treeseq", obs["api_inc"])):
+                api = apis[k] if k < len(apis) else None
+                if not api:
+                    continue
+                for form in KEY_FORMS:
+                    for name, cnt in api[form].items():
+                        if cnt != want.get(name, {}):
+                            out.append(("count-key-form-%s" % form,
+                                        "%s level, tree %d: tc[%s as %s] = %r, brute force %r"
+                                        % (level, k, name, form, cnt, want.get(name, {}))))
+                            break
+                    if out:
+                        break
+                if out:
+                    break
             if out:
                 break
         return out
@@ -1747,6 +1821,18 @@ class CountTopologies(Family):
                                           for r, cnt in sorted(d.items())))
                 for key, d in sorted(obs["per_tree"][k].items())) + "]"
             terms.append("tct_is %s %s" % (roots, want))
+            # __getitem__ with permuted keys: model tc_getitem (sorted canonical key) = API answer
+            api = obs["api_tree"][k]
+            if api and k == 0:
+                asc_perm = [(a, p) for a, p in _api_keys(len(sets), len(desc["nodes"]) * 7919 + len(sets)) if len(a) > 1][:3]
+                for a, pkey in asc_perm:
+                    cnt = api["perm_tuple"].get(",".join(map(str, a)))
+                    if cnt is None or "exc" in cnt:
+                        continue
+                    terms.append("tct_key_is %s %s [%s]" % (
+                        roots, clist(pkey),
+                        "; ".join("((%s, %s), %s)" % (cz(int(r.split(",")[0])), cz(int(r.split(",")[1])), cz(c))
+                                  for r, c in sorted(cnt.items()))))
         return " && ".join(terms) if terms else None
 
     def nontrivial(self, case, obs):
